@@ -46,6 +46,10 @@ func c17chunks(thorough bool) []c17chunk {
 		}
 	}
 	cs = append(cs, c17chunk{"bool", 0}, c17chunk{"width", 0})
+	for k := 0; k < 8; k++ {
+		cs = append(cs, c17chunk{"varint-long-runs", k})
+	}
+	cs = append(cs, c17chunk{"varint-in-context", 0})
 	return cs
 }
 
@@ -199,6 +203,96 @@ func c17checkVarint(c *core.Ctx, data []byte) {
 	} else {
 		c.Count("varint.rejected", 1)
 	}
+}
+
+// c17inContext: every place where the decoders read a varint (lengths, counts, block sizes, selectors) must
+// report a malformed varint (overflowing or longer than ten bytes) as an error, like the integer codecs do.
+func c17inContext(c *core.Ctx) int {
+	type ctxT struct {
+		A []int64          `json:"a"`
+		M map[string]int64 `json:"m"`
+		S string           `json:"s"`
+		B []byte           `json:"b"`
+		L int64            `json:"l"`
+		U *int64           `json:"u"`
+	}
+	bad := [][]byte{
+		{0x80, 0x80, 0x80, 0x80, 0x80, 0x80, 0x80, 0x80, 0x80, 0x02},
+		{0xff, 0xff, 0xff, 0xff, 0xff, 0xff, 0xff, 0xff, 0xff, 0x7f},
+		{0x80, 0x80, 0x80, 0x80, 0x80, 0x80, 0x80, 0x80, 0x80, 0x80, 0x00},
+		append(bytes.Repeat([]byte{0x80}, 37), 0x01),
+		append(bytes.Repeat([]byte{0xff}, 40), 0x00),
+		append(bytes.Repeat([]byte{0x81}, 256), 0x01),
+	}
+	L := func(v int64) []byte { return refavro.AppendLong(nil, v) }
+	cat := func(parts ...[]byte) []byte {
+		var out []byte
+		for _, p := range parts {
+			out = append(out, p...)
+		}
+		return out
+	}
+	type slot struct {
+		name   string
+		schema string
+		build  func(v []byte) []byte // record bytes with the malformed varint v in the slot, followed by valid data
+	}
+	slots := []slot{
+		{"long value", `{"name":"l","type":"long"}`, func(v []byte) []byte { return cat(v, L(1)) }},
+		{"string length", `{"name":"s","type":"string"}`, func(v []byte) []byte { return cat(v, []byte("abc")) }},
+		{"bytes length", `{"name":"b","type":"bytes"}`, func(v []byte) []byte { return cat(v, []byte("abc")) }},
+		{"array count", `{"name":"a","type":{"type":"array","items":"long"}}`, func(v []byte) []byte { return cat(v, L(1), L(0)) }},
+		{"array block size", `{"name":"a","type":{"type":"array","items":"long"}}`, func(v []byte) []byte { return cat(L(-2), v, L(1), L(2), L(0)) }},
+		{"map count", `{"name":"m","type":{"type":"map","values":"long"}}`, func(v []byte) []byte { return cat(v, L(1), []byte("k"), L(1), L(0)) }},
+		{"map block size", `{"name":"m","type":{"type":"map","values":"long"}}`, func(v []byte) []byte { return cat(L(-1), v, L(1), []byte("k"), L(7), L(0)) }},
+		{"map key length", `{"name":"m","type":{"type":"map","values":"long"}}`, func(v []byte) []byte { return cat(L(1), v, []byte("k"), L(7), L(0)) }},
+		{"union selector (3 branches)", `{"name":"l","type":["null","long","int"]}`, func(v []byte) []byte { return cat(v, L(5)) }},
+		{"second array block count", `{"name":"a","type":{"type":"array","items":"long"}}`, func(v []byte) []byte { return cat(L(1), L(9), v, L(1), L(0)) }},
+	}
+	n := 0
+	rb := avro.NewReadBuf(nil)
+	for _, sl := range slots {
+		s, err := avro.SchemaFromString(`{"type":"record","name":"ctx","fields":[` + sl.schema + `]}`)
+		if err != nil {
+			c.Violate("harness", err.Error(), nil)
+			continue
+		}
+		for _, target := range []any{ctxT{}, struct{}{}} {
+			codec, err := s.Codec(target)
+			if err != nil {
+				c.Violate("harness", sl.name+": "+err.Error(), nil)
+				continue
+			}
+			for _, v := range bad {
+				in := sl.build(v)
+				for pass := 0; pass < 2; pass++ {
+					rb.Reset(in)
+					var rerr error
+					what := "Read"
+					if pass == 0 {
+						var t ctxT
+						var e struct{}
+						if _, isEmpty := target.(struct{}); isEmpty {
+							rerr = codec.Read(rb, unsafe.Pointer(&e))
+							what = "Read (field skipped)"
+						} else {
+							rerr = codec.Read(rb, unsafe.Pointer(&t))
+						}
+					} else {
+						rerr = codec.Skip(rb)
+						what = "Skip"
+					}
+					n++
+					c.Count("varint.in-context", 1)
+					if rerr == nil {
+						c.Violate("varint-acceptance", fmt.Sprintf("%s: a varint that overflows 64 bits / is longer than ten bytes in the %s slot was accepted by %s: input %x", sl.name, sl.name, what, in), map[string]any{"hex": fmt.Sprintf("%x", in)})
+						return n
+					}
+				}
+			}
+		}
+	}
+	return n
 }
 
 func runC17(c *core.Ctx, i int) {
@@ -357,6 +451,30 @@ func runC17(c *core.Ctx, i int) {
 		}
 		c.Count("varint.patterns", n)
 		c.Shape(fmt.Sprintf("varint-pattern-%d", ch.idx))
+	case "varint-long-runs":
+		// N continuation bytes then a terminator, N = 10..800: always longer than ten bytes, always an error
+		for N := 10 + ch.idx; N <= 800; N += 8 {
+			for _, fill := range []byte{0x80, 0xff, 0x81, 0} {
+				for _, term := range []byte{0x00, 0x01, 0x02, 0x7f} {
+					buf := make([]byte, N+1)
+					for k := 0; k < N; k++ {
+						if fill == 0 {
+							buf[k] = 0x80 | byte(r.IntN(128))
+						} else {
+							buf[k] = fill
+						}
+					}
+					buf[N] = term
+					c17checkVarint(c, buf)
+					n++
+				}
+			}
+		}
+		c.Count("varint.long-runs", n)
+		c.Shape(fmt.Sprintf("varint-long-runs-%d", ch.idx))
+	case "varint-in-context":
+		n = int64(c17inContext(c))
+		c.Shape("varint-in-context")
 	case "bool":
 		for _, v := range []bool{false, true} {
 			st.wb.Reset()
